@@ -2,7 +2,7 @@
 cited interpolation theorems and instantiated on recorded samples BY IDENTITY (never by list index).
 
 reference(cls, par, f) -> (scalars, lmis)
-    scalars : list of (sense, Expression, label)  meaning  Expression <= 0  or  Expression == 0
+    scalars : list of (sense, Expression, label, (samples it is instantiated on, symmetric?))  meaning  Expression <= 0  or  Expression == 0
     lmis    : list of square numpy object arrays of Expressions (documented, possibly non-symmetric-as-written form)
 The expressions are assembled with the DSL operators (whose faithfulness is C06's business) and compared as functionals.
 """
@@ -36,44 +36,62 @@ def reference(cls, par, f):
     ST = [t for t in S if _is_stationary(t)]
     sc, lm = [], []
 
+    cur = [None]     # (samples the current condition is instantiated on, symmetric?)
+
     def le(e, label="main"):
-        sc.append(("inequality", e, label))
+        sc.append(("inequality", e, label, cur[0]))
 
     def eq(e, label="main"):
-        sc.append(("equality", e, label))
+        sc.append(("equality", e, label, cur[0]))
 
     def convex_pairs():
-        for (xi, gi, fi), (xj, gj, fj) in _pairs(S):
+        for A_, B_ in _pairs(S):
+            (xi, gi, fi), (xj, gj, fj) = A_, B_
+            cur[0] = ((A_, B_), False)
             le(fj - fi + gj * (xi - xj), "convexity")
 
     if cls == "ConvexFunction":
         convex_pairs()
     elif cls == "StronglyConvexFunction":
         mu = par["mu"]
-        for (xi, gi, fi), (xj, gj, fj) in _pairs(S):
+        for A_, B_ in _pairs(S):
+            (xi, gi, fi), (xj, gj, fj) = A_, B_
+            cur[0] = ((A_, B_), False)
             le(fj - fi + gj * (xi - xj) + mu / 2 * (xi - xj) ** 2)
     elif cls == "SmoothFunction":
         L = par["L"]
-        for (xi, gi, fi), (xj, gj, fj) in _pairs(S):
+        for A_, B_ in _pairs(S):
+            (xi, gi, fi), (xj, gj, fj) = A_, B_
+            cur[0] = ((A_, B_), False)
             le(fj - fi - L / 4 * (xi - xj) ** 2 + 1 / 2 * (gi + gj) * (xi - xj) + 1 / (4 * L) * (gi - gj) ** 2)
     elif cls == "SmoothConvexFunction":
         L = par["L"]
-        for (xi, gi, fi), (xj, gj, fj) in _pairs(S):
+        for A_, B_ in _pairs(S):
+            (xi, gi, fi), (xj, gj, fj) = A_, B_
+            cur[0] = ((A_, B_), False)
             le(fj - fi + gj * (xi - xj) + 1 / (2 * L) * (gi - gj) ** 2)
     elif cls == "SmoothStronglyConvexFunction":
         mu, L = par["mu"], par["L"]
-        for (xi, gi, fi), (xj, gj, fj) in _pairs(S):
+        for A_, B_ in _pairs(S):
+            (xi, gi, fi), (xj, gj, fj) = A_, B_
+            cur[0] = ((A_, B_), False)
             le(fj - fi + gj * (xi - xj) + 1 / (2 * L) * (gi - gj) ** 2
                + mu / (2 * (1 - mu / L)) * (xi - xj - 1 / L * (gi - gj)) ** 2)
     elif cls == "ConvexLipschitzFunction":
         convex_pairs()
-        for (xi, gi, fi) in S:
+        for A_ in S:
+            (xi, gi, fi) = A_
+            cur[0] = ((A_,), False)
             le(gi ** 2 - par["M"] ** 2, "lipschitz")
     elif cls == "SmoothConvexLipschitzFunction":
         L = par["L"]
-        for (xi, gi, fi), (xj, gj, fj) in _pairs(S):
+        for A_, B_ in _pairs(S):
+            (xi, gi, fi), (xj, gj, fj) = A_, B_
+            cur[0] = ((A_, B_), False)
             le(fj - fi + gj * (xi - xj) + 1 / (2 * L) * (gi - gj) ** 2)
-        for (xi, gi, fi) in S:
+        for A_ in S:
+            (xi, gi, fi) = A_
+            cur[0] = ((A_,), False)
             le(gi ** 2 - par["M"] ** 2, "lipschitz")
     elif cls == "ConvexQGFunction":
         L = par["L"]
@@ -83,6 +101,7 @@ def reference(cls, par, f):
                 if t is s:
                     continue
                 (xs, gs, fs), (xj, gj, fj) = s, t
+                cur[0] = ((s, t), False)
                 le(fj - fs + gj * (xs - xj) + 1 / (2 * L) * gj ** 2, "quadratic-growth")
     elif cls == "RsiEbFunction":
         mu, L = par["mu"], par["L"]
@@ -91,34 +110,49 @@ def reference(cls, par, f):
                 if t is s:
                     continue
                 (xs, gs, fs), (xj, gj, fj) = s, t
+                cur[0] = ((s, t), False)
                 le(mu * (xj - xs) ** 2 - gj * (xj - xs), "rsi")
                 le(gj ** 2 - L ** 2 * (xj - xs) ** 2, "eb")
     elif cls == "ConvexIndicatorFunction":
-        for (xi, gi, fi) in S:
+        for A_ in S:
+            (xi, gi, fi) = A_
+            cur[0] = ((A_,), False)
             eq(fi, "value")
-        for (xi, gi, fi), (xj, gj, fj) in _pairs(S):
+        for A_, B_ in _pairs(S):
+            (xi, gi, fi), (xj, gj, fj) = A_, B_
+            cur[0] = ((A_, B_), False)
             le(gj * (xi - xj), "normal-cone")
             if par.get("D", INF) != INF:
                 le((xi - xj) ** 2 - par["D"] ** 2, "diameter")
     elif cls == "ConvexSupportFunction":
-        for (xi, gi, fi) in S:
+        for A_ in S:
+            (xi, gi, fi) = A_
+            cur[0] = ((A_,), False)
             eq(gi * xi - fi, "fenchel")
             if par.get("M", INF) != INF:
                 le(gi ** 2 - par["M"] ** 2, "lipschitz")
-        for (xi, gi, fi), (xj, gj, fj) in _pairs(S):
+        for A_, B_ in _pairs(S):
+            (xi, gi, fi), (xj, gj, fj) = A_, B_
+            cur[0] = ((A_, B_), False)
             le(xj * (gi - gj), "convexity")
     elif cls == "BlockSmoothConvexFunction":
         part = f.partition
-        for (xi, gi, fi), (xj, gj, fj) in _pairs(S):
+        for A_, B_ in _pairs(S):
+            (xi, gi, fi), (xj, gj, fj) = A_, B_
+            cur[0] = ((A_, B_), False)
             for k in range(part.get_nb_blocks()):
                 gik, gjk = part.get_block(gi, k), part.get_block(gj, k)
                 le(fj - fi + gj * (xi - xj) + 1 / (2 * par["L"][k]) * (gik - gjk) ** 2)
     elif cls == "SmoothStronglyConvexQuadraticFunction":
         mu, L = par["mu"], par["L"]
         xs, _, fs = f.list_of_stationary_points[0]
-        for (xi, gi, fi) in S:
+        for A_ in S:
+            (xi, gi, fi) = A_
+            cur[0] = ((A_,), False)
             eq(fi - fs - 0.5 * (xi - xs) * gi, "value")
-        for (xi, gi, fi), (xj, gj, fj) in _upairs(S):
+        for A_, B_ in _upairs(S):
+            (xi, gi, fi), (xj, gj, fj) = A_, B_
+            cur[0] = ((A_, B_), True)
             eq((xi - xs) * gj - (xj - xs) * gi, "symmetry")
         n = len(S)
         T = np.empty((n, n), dtype=object)
@@ -129,7 +163,9 @@ def reference(cls, par, f):
     elif cls in ("CocoerciveOperator", "CocoerciveStronglyMonotoneOperator", "LipschitzOperator",
                  "LipschitzStronglyMonotoneOperator", "MonotoneOperator", "NegativelyComonotoneOperator",
                  "NonexpansiveOperator", "StronglyMonotoneOperator"):
-        for (xi, gi, fi), (xj, gj, fj) in _upairs(S):
+        for A_, B_ in _upairs(S):
+            (xi, gi, fi), (xj, gj, fj) = A_, B_
+            cur[0] = ((A_, B_), True)
             dx, dg = xi - xj, gi - gj
             if cls in ("CocoerciveOperator", "CocoerciveStronglyMonotoneOperator"):
                 le(par["beta"] * dg ** 2 - dg * dx, "cocoercivity")
@@ -144,13 +180,17 @@ def reference(cls, par, f):
             if cls == "NonexpansiveOperator":
                 le(dg ** 2 - dx ** 2)
         if cls == "NonexpansiveOperator" and getattr(f, "v", None) is not None:
-            for (xi, gi, fi) in S:
+            for A_ in S:
+                (xi, gi, fi) = A_
+                cur[0] = ((A_,), False)
                 le(f.v ** 2 - (xi - gi) * f.v, "displacement")
     elif cls == "LinearOperator":
         L = par["L"]
         TS = list(f.T.list_of_points)
-        for (xi, yi, fi) in S:
-            for (uj, vj, hj) in TS:
+        for A_ in S:
+            for B_ in TS:
+                (xi, yi, fi), (uj, vj, hj) = A_, B_
+                cur[0] = ((A_, B_), False)
                 eq(xi * vj - yi * uj, "adjoint")
         for samples in (S, TS):
             n = len(samples)
@@ -164,6 +204,7 @@ def reference(cls, par, f):
         for i in range(len(S)):
             for j in range(i, len(S)):          # including the diagonal: X^T Y is antisymmetric
                 (xi, gi, _), (xj, gj, _) = S[i], S[j]
+                cur[0] = ((S[i], S[j]), True)
                 eq(xi * gj + xj * gi, "antisymmetry-diagonal" if i == j else "antisymmetry")
         n = len(S)
         T = np.empty((n, n), dtype=object)
@@ -173,7 +214,9 @@ def reference(cls, par, f):
         lm.append(T)
     elif cls == "SymmetricLinearOperator":
         mu, L = par["mu"], par["L"]
-        for (xi, gi, _), (xj, gj, _) in _upairs(S):
+        for A_, B_ in _upairs(S):
+            (xi, gi, _), (xj, gj, _) = A_, B_
+            cur[0] = ((A_, B_), True)
             eq(xi * gj - xj * gi, "symmetry")
         n = len(S)
         T = np.empty((n, n), dtype=object)
